@@ -50,7 +50,12 @@ Definition stop_texts_modelled : bool :=
   && shape_machine_stop_std && shape_machine_init_arms && shape_run_flag_writers_known
   && shape_machine_wait_std && shape_job_execute_std && shape_job_request_stop_std
   && (shape_agent_no_prepare || shape_agent_prepares)
-  && shape_clock_no_unknown_methods.
+  && shape_clock_no_unknown_methods
+  (* the job controller's stop methods and WebApp.stop_all, as the runs drive them *)
+  && (shape_jc_stop_current_rereads || shape_jc_stop_current_local)
+  && (shape_jc_clear_queue_unlocked || shape_jc_clear_queue_locked)
+  && shape_jc_stop_job_std && shape_jc_stop_background_std
+  && shape_jc_on_execution_done_std && shape_jc_run_next_job_std && shape_web_stop_all_std.
 
 (* ---------- scripts ---------- *)
 
